@@ -70,6 +70,24 @@ type Hooks struct {
 	// OnCommit receives the row changes of one commit (an autocommit statement
 	// or a transaction), in execution order. Not called for empty commits.
 	OnCommit func([]RowChange)
+	// Fault is consulted for every parsed statement before it executes; a
+	// non-nil result injects a failure (see Fault).
+	Fault func(*Stmt) *Fault
+}
+
+// Fault describes an injected failure of one statement.
+type Fault struct {
+	// Err, when non-nil, is returned by the driver instead of executing the
+	// statement (driver.ErrBadConn makes database/sql retry the statement on
+	// another connection, and the hook is consulted again for the retry).
+	Err error
+	// RowsErr, when non-nil, lets a SELECT start normally and then makes the
+	// result stream fail: Rows.Next returns RowsErr after RowsErrAfter rows
+	// were delivered (a connection lost mid-result, a cancellation observed
+	// between two row reads). If the result has fewer rows the stream ends
+	// normally.
+	RowsErr      error
+	RowsErrAfter int
 }
 
 type table struct {
@@ -482,8 +500,10 @@ func (e *Engine) infoSchemaColumns() *table {
 }
 
 type resultSet struct {
-	cols []string
-	rows [][]driver.Value
+	cols     []string
+	rows     [][]driver.Value
+	errAfter int
+	err      error
 }
 
 func (e *Engine) execSelect(ctx context.Context, tx *txState, st *Stmt) (*resultSet, error) {
